@@ -295,10 +295,33 @@ class Run:
                 return ra[0]
             return types.CallResult(*ra, **(rk or {}))
 
-        B.s.register(endpoint, env_uri, options=types.RegisterOptions(details_arg="details"))
-        req = [m for m in bw.sent if isinstance(m, message.Register)][-1].request
-        B.recv_msg(message.Registered(req, 201))
+        # every way of registering the procedure env_uri; the REGISTER on the wire must carry the full URI in all of them
+        reg_mode = sp.get("reg_mode", "plain")
+        cut = env_uri.rfind(".") + 1
+        pre, bare = env_uri[:cut], env_uri[cut:]
+        ropts = types.RegisterOptions(details_arg="details")
+        if reg_mode == "plain":
+            B.s.register(endpoint, env_uri, options=ropts)
+        elif reg_mode == "prefix":                       # register(fn, "proc1", prefix="com.myapp.")
+            B.s.register(endpoint, bare, options=ropts, prefix=pre)
+        elif reg_mode in ("decorated", "decorated_prefix"):
+            uri_on_method = env_uri if reg_mode == "decorated" else bare
+
+            class Obj:
+                @wamp.register(uri_on_method, options=ropts)
+                def method(self_, *a, details=None, **k):
+                    return endpoint(*a, details=details, **k)
+            B.s.register(Obj(), prefix=None if reg_mode == "decorated" else pre)
+        elif reg_mode == "pattern":                      # prefix-matching registration: the router names the procedure
+            B.s.register(endpoint, pre, options=types.RegisterOptions(details_arg="details", match="prefix"))
+        else:
+            raise ValueError(reg_mode)
+        rmsg = [m for m in bw.sent if isinstance(m, message.Register)][-1]
+        self.register_uri = rmsg.procedure
+        B.recv_msg(message.Registered(rmsg.request, 201))
         turn()
+        if reg_mode == "pattern":
+            sp = dict(sp, detail_uri=True)
         args = [VALUES[i] for i in sp["args"]]
         kwargs = {k: VALUES[i] for k, i in sp["kwargs"]}
 
@@ -337,11 +360,11 @@ class Run:
         try:
             call_msg, out1 = new_call(sp["uri"])
         except Exception as e:
-            self.legs.append({"leg": "call_invocation", "encrypted": False, "outcomes": [[["notsent", type(e).__name__], 1]],
+            self.legs.append({"leg": "call_invocation", "register_uri": self.register_uri, "encrypted": False, "outcomes": [[["notsent", type(e).__name__], 1]],
                               "odd": [], "n_alterations": 1, "clear_fields": False, "leak": False, "wire": None})
             return
         call1, data = self.hop(call_msg)
-        leg = dict(leg="call_invocation", **self.describe(call1, data, MARKERS))
+        leg = dict(leg="call_invocation", register_uri=self.register_uri, **self.describe(call1, data, MARKERS))
         results, replies = [], []
         for label, f in self.alterations(call1, f1):
             inv = message.Invocation(7001 + len(results), 201, procedure=env_uri if sp.get("detail_uri") else None,
